@@ -154,4 +154,186 @@ theorem read_cutF (fs : List Frame) (o : Op) (p : Frame → Pull) (hp : pullOf o
     simp only [pullOf, Option.some.injEq, reduceCtorEq] at hp
     try (subst hp; simp only [dictLikeRead, readerOf, cutF_allP, lookup_cutF])
 
+/-! ## the simulation relation -/
+
+/-- what a materialised frame shows -/
+def obsC (σ : FState) (P : ObjId) (c : ClassId) : Option Frame := (σ.mapGet P c).map (σ.deref P)
+
+/-- mechanism state `σ` and model-A state `a` describe the same store: the same class table and
+    instances; the frame model A keeps for an OWNER is the frame the class has or WOULD get
+    (`initial_set`); a non-owner has a frame in model A exactly when it has one in `map` -/
+structure Sim (σ : FState) (a : State) : Prop where
+  classes : a.classes = σ.classes
+  ndesc : a.ndesc = σ.ndesc
+  insts : a.insts = σ.insts
+  owner : ∀ c s, σ.ownOf c = some s → a.frameD (.init s) = would σ (σ.objOf s) c
+  other : ∀ c s, σ.ownOf c = none → σ.descOf c = some s →
+    AList.get? a.frames (.cls s c) = obsC σ (σ.objOf s) c
+
+theorem Sim.mroOf {σ : FState} {a : State} (h : Sim σ a) : a.mroOf = σ.mroOf := by
+  funext c; unfold State.mroOf FState.mroOf; rw [h.classes]; rfl
+theorem Sim.ownOf {σ : FState} {a : State} (h : Sim σ a) : a.ownOf = σ.ownOf := by
+  funext c; unfold State.ownOf FState.ownOf; rw [h.classes]; rfl
+
+theorem deref_mapSet (σ : FState) (P : ObjId) (o : ClassId) (r : FrameRef) (P' : ObjId) (r' : FrameRef) :
+    (σ.mapSet P o r).deref P' r' = σ.deref P' r' := by cases r' <;> rfl
+
+theorem would_mapSet (σ : FState) (P : ObjId) (o : ClassId) (r : FrameRef) (P' : ObjId) (c' : ClassId) :
+    would (σ.mapSet P o r) P' c' = if (P, o) = (P', c') then σ.deref P' r else would σ P' c' := by
+  by_cases hk : (P, o) = (P', c')
+  · simp only [would, FState.mapGet, FState.mapSet, get?_set, hk, if_true]
+    exact deref_mapSet σ P o r P' r
+  · simp only [would, FState.mapGet, FState.mapSet, get?_set, hk, if_false]
+    cases AList.get? σ.map (P', c') with
+    | none => rfl
+    | some r' => exact deref_mapSet σ P o r P' r'
+
+theorem obsC_mapSet (σ : FState) (P : ObjId) (o : ClassId) (r : FrameRef) (P' : ObjId) (c' : ClassId) :
+    obsC (σ.mapSet P o r) P' c' = if (P, o) = (P', c') then some (σ.deref P' r) else obsC σ P' c' := by
+  by_cases hk : (P, o) = (P', c')
+  · simp only [obsC, FState.mapGet, FState.mapSet, get?_set, hk, if_true]
+    exact congrArg some (deref_mapSet σ P o r P' r)
+  · simp only [obsC, FState.mapGet, FState.mapSet, get?_set, hk, if_false]
+    cases AList.get? σ.map (P', c') with
+    | none => rfl
+    | some r' => exact congrArg some (deref_mapSet σ P o r P' r')
+theorem Sim.descOf {σ : FState} {a : State} (h : Sim σ a) : a.descOf = σ.descOf := by
+  funext c; simp only [State.descOf, FState.descOf, h.mroOf, h.ownOf]
+
+/-- along the chain of a class that resolves slot `s` coherently, the mechanism's full walk hands
+    out exactly the frames model A's walk hands out -/
+theorem pwalk_sim {σ : FState} {a : State} (h : Sim σ a) (s : DescId) : ∀ (l : List ClassId),
+    l.findSome? σ.ownOf = some s →
+    (∀ x ∈ cut (fun x => (σ.ownOf x).isSome) l, σ.descOf x = some s) →
+    pwalk σ (σ.objOf s) l = a.walk s l
+  | [], hd, _ => by simp at hd
+  | x :: rest, hd, hco => by
+    cases hx : σ.ownOf x with
+    | some s' =>
+      have hs : s' = s := by simpa [List.findSome?_cons, hx] using hd
+      subst hs
+      have ho : σ.ownsObj x (σ.objOf s') = true := by simp [FState.ownsObj, hx]
+      have ha : a.owns x s' = true := by simp [State.owns, h.ownOf, hx]
+      have hw := h.owner x s' hx
+      simp only [State.walk, ha, if_true, hw, would, pwalk]
+      cases σ.mapGet (σ.objOf s') x <;> simp [ho]
+    | none =>
+      have ho : σ.ownsObj x (σ.objOf s) = false := by simp [FState.ownsObj, hx]
+      have ha : a.owns x s = false := by simp [State.owns, h.ownOf, hx]
+      have hcut : cut (fun x => (σ.ownOf x).isSome) (x :: rest)
+          = x :: cut (fun x => (σ.ownOf x).isSome) rest := by simp [cut, hx]
+      have hdx : σ.descOf x = some s := hco x (by rw [hcut]; exact List.mem_cons_self)
+      have hd' : rest.findSome? σ.ownOf = some s := by simpa [List.findSome?_cons, hx] using hd
+      have ih := pwalk_sim h s rest hd' (fun y hy => hco y (by rw [hcut]; exact List.mem_cons_of_mem _ hy))
+      have hoth := h.other x s hx hdx
+      simp only [State.walk, ha, pwalk, ho, hoth, obsC, Bool.false_eq_true, if_false]
+      cases σ.mapGet (σ.objOf s) x <;> simp [ih]
+
+/-- materialising an owner's frame as a COPY of `initial_set` is invisible to model A -/
+theorem Sim_mat {σ : FState} {a : State} (h : Sim σ a) (P : ObjId) (o : ClassId)
+    (hm : σ.mapGet P o = none) (ho : σ.ownsObj o P = true) :
+    Sim (σ.mapSet P o (.obj (σ.initialOf P))) a where
+  classes := h.classes
+  ndesc := h.ndesc
+  insts := h.insts
+  owner := by
+    intro c s hc
+    have hc' : σ.ownOf c = some s := hc
+    show a.frameD (.init s) = would (σ.mapSet P o _) (σ.objOf s) c
+    rw [h.owner c s hc', would_mapSet]
+    split
+    · rename_i hk
+      obtain ⟨rfl, rfl⟩ := Prod.mk.inj hk
+      simp only [would, hm]; rfl
+    · rfl
+  other := by
+    intro c s hc hd
+    have hc' : σ.ownOf c = none := hc
+    have hd' : σ.descOf c = some s := hd
+    show AList.get? a.frames (.cls s c) = obsC (σ.mapSet P o _) (σ.objOf s) c
+    rw [h.other c s hc' hd', obsC_mapSet]
+    split
+    · rename_i hk
+      obtain ⟨rfl, rfl⟩ := Prod.mk.inj hk
+      simp [FState.ownsObj, hc'] at ho
+    · rfl
+
+/-- … so no read changes what model A sees -/
+theorem Sim_pull {σ : FState} {a : State} (h : Sim σ a) (P : ObjId) (l : List ClassId) (p : Frame → Pull) :
+    Sim (framesPull σ P p l).1 a := by
+  rcases pull_state σ P l p with e | ⟨o, hm, ho, e⟩
+  · rw [e]; exact h
+  · rw [e]; exact Sim_mat h P o hm ho
+
+/-- coherence of a class (as in `Proofs.C17`), on the mechanism's class table -/
+def CoherentF (σ : FState) (c : ClassId) : Prop :=
+  ∃ d, σ.descOf c = some d ∧ ∀ x ∈ cut (fun x => (σ.ownOf x).isSome) (σ.mroOf c), σ.descOf x = some d
+
+theorem CoherentF_of {σ : FState} {a : State} (h : Sim σ a) (c : ClassId) (hc : Coherent a c) :
+    CoherentF σ c := by
+  obtain ⟨d, hd, hall⟩ := hc
+  rw [h.descOf, h.mroOf, h.ownOf] at *
+  exact ⟨d, hd, hall⟩
+
+/-- the frames of a class view: the mechanism's full walk = model A's `tFrames` -/
+theorem pwalk_tFrames {σ : FState} {a : State} (h : Sim σ a) (c : ClassId) (s : DescId)
+    (hd : σ.descOf c = some s) (hco : CoherentF σ c) :
+    pwalk σ (σ.objOf s) (σ.mroOf c) = tFrames a c s := by
+  obtain ⟨d, hd', hall⟩ := hco
+  have : d = s := by rw [hd] at hd'; exact (Option.some.inj hd').symm
+  subst this
+  simp only [tFrames, h.mroOf]
+  exact pwalk_sim h d (σ.mroOf c) hd hall
+
+theorem dictLikeRead_isRead (r : Reader) (o : Op) (p : Frame → Pull) (hp : pullOf o = some p) :
+    ∃ res, dictLikeRead r o = some res := by
+  cases o <;> simp only [pullOf, reduceCtorEq] at hp <;> exact ⟨_, rfl⟩
+
+/-- **reads through a class view.**  Every read-only method — including the ones that materialise
+    the owner's frame on the way — returns what model A returns, and model A's state still
+    describes the store afterwards. -/
+theorem classRead_refines {σ : FState} {a : State} (h : Sim σ a) (alias : Bool) (c : ClassId) (o : Op)
+    (p : Frame → Pull) (hp : pullOf o = some p) (hco : c < σ.classes.length → CoherentF σ c) :
+    (classOpF alias σ c o).2 = (classOp a c o).2 ∧
+    Sim (classOpF alias σ c o).1 (classOp a c o).1 := by
+  simp only [classOpF, classOp, h.classes, h.descOf]
+  by_cases hc : c < σ.classes.length
+  · simp only [hc, if_true]
+    cases hd : σ.descOf c with
+    | none => exact ⟨rfl, h⟩
+    | some s =>
+      simp only [hp, pull_frames, read_cutF _ o p hp, pwalk_tFrames h c s hd (hco hc)]
+      have hr : tReader a c s = readerOf (tFrames a c s) := rfl
+      obtain ⟨res, hres⟩ := dictLikeRead_isRead (readerOf (tFrames a c s)) o p hp
+      simp only [hr, hres, Option.getD_some]
+      exact ⟨trivial, Sim_pull h _ _ _⟩
+  · simp only [hc, if_false]
+    exact ⟨trivial, h⟩
+
+/-! ## the ALIASING counter-model -/
+
+def kS : Key := ['s']
+def kB : Key := ['b']
+
+/-- write through the owner FIRST (so that the write path creates its frame), then hand the same
+    `Properties` object to a second class, then read through that class -/
+def aliasHist : List Cmd :=
+  [.op (.cls 0) (.setitem kB (.int 9)), .usingShared 0 0 [(kS, .int 1)], .op (.cls 1) (.getitem kB),
+   .op (.cls 1) .items]
+
+/-- **the counter-model breaks the correspondence.**  With `_base_frame` storing `initial_set`
+    itself (`alias = true`, seeded mutation `C17-base-frame-alias-initial`) the write through the
+    owner goes INTO `initial_set`: the class that is handed the same `Properties` object later sees
+    it (`['b']` returns 9 instead of raising `KeyError`), the results differ from model A's, and
+    `initial_set` is no longer what the object was constructed with.  The mechanism as written
+    (`alias = false`) gives model A's results on the same history. -/
+theorem aliasInitial_fails :
+    (frun true (finit [(kS, .int 1)]) aliasHist).2 ≠ (run (initState [(kS, .int 1)]) aliasHist).2 ∧
+    (frun true (finit [(kS, .int 1)]) aliasHist).2[2]? = some (.val (.int 9)) ∧
+    (run (initState [(kS, .int 1)]) aliasHist).2[2]? = some (.err .keyError) ∧
+    (frun true (finit [(kS, .int 1)]) aliasHist).1.initialOf 0 ≠ (finit [(kS, .int 1)]).initialOf 0 ∧
+    (frun false (finit [(kS, .int 1)]) aliasHist).2 = (run (initState [(kS, .int 1)]) aliasHist).2 ∧
+    (frun false (finit [(kS, .int 1)]) aliasHist).1.initialOf 0 = (finit [(kS, .int 1)]).initialOf 0 := by
+  decide
+
 end Flatland.C17.Frames.Proofs
